@@ -16,7 +16,8 @@ def translate(mesh : Mesh, tr : Vec) -> Mesh:
         Mesh: the translated mesh
     """
     for i in mesh.id_vertices:
-        mesh.vertices[i] += tr
+        # not in place: a coordinate array may be stored under several vertex ids or shared with another mesh
+        mesh.vertices[i] = mesh.vertices[i] + tr
     return mesh
 
 def rotate(mesh : Mesh, rot : Rotation, orig : Vec = None) -> Mesh:
